@@ -2,11 +2,32 @@
 import common
 from props.parts import sendflow
 
-THEOREMS = ["C16_capacity_is_backed", "C16_never_over_assigned", "C16_poll_capacity_never_zero"]
+VO_TARGETS = ["Properties/C16.vo", "Properties/C16_fifo.vo"]
+AUDIT = [
+    ("H2V.Properties.C16", ["C16_capacity_is_backed", "C16_never_over_assigned", "C16_poll_capacity_never_zero"]),
+    ("H2V.Properties.C16_fifo", [
+        "C16_fifo_refines", "C16_fifo_check_sound", "C16_fifo_capacity_is_backed",
+        "C16_fifo_queue_invariant", "C16_fifo_queue_invariant_run", "C16_fifo_queued_iff_waiting",
+        "C16_fifo_every_label_via_call", "C16_fifo_no_overtaking", "C16_returned_capacity_reaches_waiters",
+        "C16_no_starvation_under_returns", "C16_fifo_loop_terminates",
+        "C16_fifo_strict_order_refuted", "C16_fifo_stale_entry_refuted", "C16_fifo_demo", "C16_fifo_nonvacuous"]),
+]
 PARTIAL = [
     "proved: reported capacity is backed by wire credit, conservation of assigned capacity, never-zero notification; "
-    "NOT proved (explored by the lock-step only): that a parked poll_capacity task is woken in the same step in which its capacity "
-    "rises, and that returned capacity reaches the *head* of the waiting queue (the model leaves the visiting order open)",
+    "proved with the pending_capacity FIFO explicit (Model/CapQueue.v computes the visiting order of assign_connection_capacity "
+    "from the queue; the lock-step compares the model's queue and the computed visits with the observed ones at every label): "
+    "returned capacity is offered in queue order (head first: min(unassigned, requested - assigned, stream window - assigned); a "
+    "stream further back receives something only when everything in front of it has left the queue), after every call the "
+    "connection has no unassigned capacity or nobody is queued, whoever left the queue no longer waits for connection capacity, "
+    "a waiting stream moves up by the number of streams popped and never moves back unless it is itself popped (bounded bypass), "
+    "no duplicates, the loop terminates; a stream is queued by try_assign_capacity IFF after the assignment it may send, wants more "
+    "and its own window has room. NOT an invariant (refuted with witnesses, intended behaviour of the code): strict FIFO across "
+    "calls (a partly served head is re-queued at the BACK: round-robin) and 'a queued stream still wants capacity' (stale entries "
+    "are dropped at their next visit); the converse 'a stream that wants capacity is queued' depends on stream-state "
+    "observations (streaming / pending open) that the flow model takes as inputs and is stated only at the decision point. "
+    "NOT proved (explored by the lock-step only): that a parked poll_capacity task is woken in the same step in which its "
+    "capacity rises. Modelled, not observed directly: the streaming bit of a stream that assign_connection_capacity evicts "
+    "(no hook at the `continue`; inferred from the absence of the try_assign_capacity call, cross-checked by the queue contents)",
 ]
 
 
@@ -19,6 +40,14 @@ def correspond(rep, tier, seed):
         found = search(rep, tier, seed, reason="correspondence")
         if not found:
             sendflow.report_disagreements(rep, scs, failing)
+    # the pending_capacity FIFO: queue contents and computed visiting order at every label
+    qscs, qfailing = sendflow.correspond_capqueue(rep, tier, seed + 2)
+    if qfailing:
+        n_q = sendflow.capacity_usable_oracle(rep, qscs)
+        if n_q == 0:
+            found = search(rep, tier, seed, reason="correspondence-capqueue")
+            if not found:
+                sendflow.report_disagreements_q(rep, qscs, qfailing)
 
 
 def search(rep, tier, seed, reason=""):
